@@ -1,7 +1,7 @@
 SPECIFICATION Spec
 CONSTANTS
-  Pool = {"plain", "caller", "main0", "bad_type", "calls_bad", "ct_good", "ct_bad", "closure", "use_generic", "use_mono", "use_struct", "use_over", "loops"}
-  EntryOps = {"main0", "caller"}
+  Pool = {"caller", "calls_bad", "ct_good", "ct_bad", "ct_expr", "closure", "use_mono", "use_struct", "loops"}
+  EntryOps = {"caller"}
   MaxLen = 2
   EmitHist = TRUE
 INVARIANT NoStaleRead
